@@ -51,6 +51,15 @@ def _candidates(plan: dict):
         p = copy.deepcopy(plan)
         p["line_rate"] = 0.0
         yield "line pre-emption off", p
+    if plan.get("pause_rate"):
+        p = copy.deepcopy(plan)
+        p["pause_rate"] = 0.0
+        yield "user-thread pauses off", p
+    for i, e in enumerate(eps):
+        if e.get("mid_record") is not None:
+            p = copy.deepcopy(plan)
+            del p["episodes"][i]["mid_record"]
+            yield f"episode {i}: no mid-episode get_record", p
     for i, e in enumerate(eps):
         if e.get("stall_p") or e.get("slow_user") or e.get("rtf"):
             p = copy.deepcopy(plan)
